@@ -169,9 +169,11 @@ def all_markers(case: Dict[str, Any], U) -> List[str]:
             pr = U.parse_requirement(r)
             if pr.marker is not None:
                 out.append(str(pr.marker))
-    for cands in case["universe"].values():
-        for (_, _, reqs, _) in cands:
-            add(reqs)
+    layers = [case["universe"]] + [l["universe"] for l in case.get("stack") or []]
+    for uni in layers:
+        for cands in uni.values():
+            for (_, _, reqs, _) in cands:
+                add(reqs)
     for (_, reqs) in case["inputs"]:
         add(reqs)
     for (_, reqs) in case["constraints"] or []:
@@ -184,14 +186,26 @@ def container_tokens(C, U, name: str, reqs: List[str]) -> List[str]:
     return graphenc.dist_tokens(d)
 
 
-def case_line(case: Dict[str, Any], alphabet, xorder, C, U) -> str:
-    toks = ["P", str(FUEL)] + graphenc.env_tokens(all_markers(case, U), alphabet, xorder)
-    toks.append(str(len(case["universe"])))
-    for key, cands in case["universe"].items():
+def universe_tokens(universe: Dict[str, Any], C, U) -> List[str]:
+    toks = [str(len(universe))]
+    for key, cands in universe.items():
         toks += [hx(U.normalize_project_name(key)), str(len(cands))]
         for (cname, ver, reqs, readable) in cands:
             d = C.DistInfo(cname, U.parse_version(ver), [U.parse_requirement(r) for r in reqs])
             toks += [hx(cname), "1" if readable else "0"] + graphenc.dist_tokens(d)
+    return toks
+
+
+def case_line(case: Dict[str, Any], alphabet, xorder, C, U) -> str:
+    stack = case.get("stack")
+    toks = ["S" if stack else "P", str(FUEL)] + graphenc.env_tokens(all_markers(case, U), alphabet, xorder)
+    if stack:
+        toks.append(str(len(stack)))
+        for layer in stack:
+            toks.append("1" if layer["allow_pre"] else "0")
+            toks += universe_tokens(layer["universe"], C, U)
+    else:
+        toks += universe_tokens(case["universe"], C, U)
     toks.append(str(len(case["inputs"])))
     for (name, reqs) in case["inputs"]:
         toks += container_tokens(C, U, name, reqs)
@@ -202,7 +216,8 @@ def case_line(case: Dict[str, Any], alphabet, xorder, C, U) -> str:
         for (name, reqs) in case["constraints"]:
             toks += container_tokens(C, U, name, reqs)
     toks.append("1" if case["remove_constraints"] else "0")
-    toks.append("1" if case["allow_pre"] else "0")
+    if not stack:
+        toks.append("1" if case["allow_pre"] else "0")
     toks += ["N"] if case["max_downgrade"] is None else ["S", str(case["max_downgrade"])]
     return " ".join(toks)
 
@@ -212,10 +227,11 @@ def case_line(case: Dict[str, Any], alphabet, xorder, C, U) -> str:
 FATAL_CLASSES = {"AssertionError", "KeyError", "ValueError", "RuntimeError", "IndexError", "AttributeError", "TypeError"}
 
 
-def run_impl(case: Dict[str, Any], M, keep: bool = False) -> Dict[str, Any]:
+def run_impl(case: Dict[str, Any], M, keep: bool = False, clear_caches: bool = True) -> Dict[str, Any]:
     CP, C, D, E, R, U = M
-    U.parse_requirement.cache_clear()
-    U.NAME_CACHE.clear()
+    if clear_caches:
+        U.parse_requirement.cache_clear()
+        U.NAME_CACHE.clear()
     Repo = make_repo_class(R, C, E, U)
     repo = Repo(case["universe"], case["allow_pre"])
     mk = lambda name, reqs: C.DistInfo(name, None, [U.parse_requirement(r) for r in reqs], meta=True)
